@@ -877,3 +877,18 @@ mutant("enc-nas-no-distinct", "C08", GRAPH, "                            if (y2,
 mutant("enc-nas-diag-range", "C08", GRAPH, "                        if 0 <= y2 < height and 0 <= x2 < width:\n                            less_ranks.append", "                        if 0 <= y2 < height and 0 <= x2 < height:\n                            less_ranks.append", "ENC-S")
 variant("enc-na-flipped-slices", "C08", GRAPH, "        solver.ensure(~(is_active[1:, :] & is_active[:-1, :]))", "        solver.ensure(~(is_active[:-1, :] & is_active[1:, :]))")
 variant("enc-nas-bigger-range", "C08", GRAPH, "        ranks = solver.int_array((height, width), 0, (height * width - 1) // 2)", "        ranks = solver.int_array((height, width), 0, height * width)")
+
+# ---- C10 ---------------------------------------------------------------------------------------
+mutant("fdt-degree-le3", "C10", GRAPH, "                solver.ensure((is_passed[y, x] & ~is_cross[y, x]).then(d <= 2))", "                solver.ensure((is_passed[y, x] & ~is_cross[y, x]).then(d <= 3))", "FDT-1")
+mutant("fdt-cycle-degree", "C10", GRAPH, "                solver.ensure((is_passed[y, x] & ~is_cross[y, x]).then(d == 2))", "                solver.ensure((is_passed[y, x] & ~is_cross[y, x]).then(d >= 1))", "FDT-1")
+# widening the boundary test for ~is_cross is equivalent: a boundary point has degree <= 3, so crossing (degree 4) is impossible there anyway
+mutant("fdt-unpassed-degree", "C10", GRAPH, "            solver.ensure((~is_passed[y, x]).then(d == 0))", "            solver.ensure((~is_passed[y, x]).then(d <= 1))", "FDT-1")
+mutant("fdt-cross-degree", "C10", GRAPH, "            solver.ensure((is_passed[y, x] & is_cross[y, x]).then(d == 4))", "            solver.ensure((is_passed[y, x] & is_cross[y, x]).then(d >= 3))", "FDT-1")
+mutant("split-wrong-half", "C10", GRAPH, "            g.add_edge(eid, v0 + 2)\n            g.add_edge(eid, v1)\n            g.add_edge(eid, v1 + 2)", "            g.add_edge(eid, v0 + 1)\n            g.add_edge(eid, v1)\n            g.add_edge(eid, v1 + 2)", "SPLIT")
+mutant("split-missing-single", "C10", GRAPH, "            g.add_edge(eid, v0)\n            g.add_edge(eid, v0 + 1)\n            g.add_edge(eid, v1)\n            g.add_edge(eid, v1 + 1)", "            g.add_edge(eid, v0 + 1)\n            g.add_edge(eid, v1)\n            g.add_edge(eid, v1 + 1)", "SPLIT")
+mutant("split-eid-offset", "C10", GRAPH, "            eid = height * width * 3 + (height - 1) * width + y * (width - 1) + x", "            eid = height * width * 3 + (height - 1) * width + y * width + x", "SPLIT")
+mutant("split-double-as-single", "C10", GRAPH, "    solver.ensure(is_passed_double_vertical == is_cross)", "    solver.ensure(is_passed_double_vertical == is_passed)", "SPLIT")
+mutant("split-single-def", "C10", GRAPH, "    solver.ensure(is_passed_single == (is_passed & ~is_cross))", "    solver.ensure(is_passed_single == is_passed)", "SPLIT")
+mutant("split-gv-order", "C10", GRAPH, "            gv.append(is_passed_double_horizontal[y, x])\n            gv.append(is_passed_double_vertical[y, x])", "            gv.append(is_passed_double_vertical[y, x])\n            gv.append(is_passed_single[y, x])", "SPLIT")
+variant("fdt-degree-range", "C10", GRAPH, "                solver.ensure((is_passed[y, x] & ~is_cross[y, x]).then(d >= 1))\n                solver.ensure((is_passed[y, x] & ~is_cross[y, x]).then(d <= 2))", "                solver.ensure((is_passed[y, x] & ~is_cross[y, x]).then((d == 1) | (d == 2)))")
+variant("split-halves-swapped", "C10", GRAPH, ["            g.add_edge(eid, v0 + 2)\n            g.add_edge(eid, v1)\n            g.add_edge(eid, v1 + 2)", "            g.add_edge(eid, v0 + 1)\n            g.add_edge(eid, v1)\n            g.add_edge(eid, v1 + 1)", "@@A@@"], ["@@A@@", "            g.add_edge(eid, v0 + 2)\n            g.add_edge(eid, v1)\n            g.add_edge(eid, v1 + 2)", "            g.add_edge(eid, v0 + 1)\n            g.add_edge(eid, v1)\n            g.add_edge(eid, v1 + 1)"], "a consistent swap of the two pass-through halves is behaviour-preserving")
